@@ -1468,3 +1468,218 @@ func init() {
 		Gen:  c10DeliveryKinds,
 	})
 }
+
+// ---------------------------------------------------------------------------------------
+// (f) environments: the result is a function of program, selectors and input -- not of the
+// process environment. The REAL BINARY is run on the same (program, selectors, input, -o FILE)
+// under a list of environments (cli flag e=): TMPDIR unset / naming a missing directory / a
+// regular file / a directory without write permission / an empty directory on another file
+// system / the working directory itself; HOME, USER, PATH unset; LANG / LC_ALL / TZ / GOMAXPROCS /
+// GOGC / GODEBUG / NO_COLOR / TERM values; umask 077 and 0; the working directory on another file
+// system than the system temp dir (/dev/shm) and deep down a path with blanks and non-ASCII
+// names; -o targets in the working directory, in sub-directories, over an existing file, over
+// the INPUT file, "-" and none. One Group per scenario: exit status, stdout, stderr and the bytes
+// of the -o file must be the same in every environment; the plain run is compared with the
+// model; oracle: when the library run (in the generator) succeeds the binary exits 0 and the -o
+// file holds GetRootJson's text.
+// ---------------------------------------------------------------------------------------
+
+var c10Envs = []struct{ spec, what string }{
+	{"-TMPDIR", "TMPDIR unset"},
+	{"TMPDIR=@MISSING@", "TMPDIR names a directory that does not exist"},
+	{"TMPDIR=@FILE@", "TMPDIR names a regular file"},
+	{"TMPDIR=@RODIR@", "TMPDIR names a directory without write permission"},
+	{"TMPDIR=@SHM@", "TMPDIR names an empty directory on another file system (/dev/shm)"},
+	{"TMPDIR=@TMP@", "TMPDIR names a fresh empty directory"},
+	{"TMPDIR=@DIR@", "TMPDIR names the working directory"},
+	{"TMPDIR=", "TMPDIR empty"},
+	{"TMPDIR=relative/tmp", "TMPDIR relative and missing"},
+	{"TMPDIR=/dev/null", "TMPDIR = /dev/null"},
+	{"root=shm", "working directory on another file system than the system temp dir"},
+	{"root=shm;TMPDIR=@TMP@", "working directory on /dev/shm, TMPDIR a fresh directory in the system temp dir"},
+	{"root=shm;TMPDIR=@MISSING@", "working directory on /dev/shm, TMPDIR missing"},
+	{"root=deep", "working directory deep down a path with blanks, quotes and non-ASCII names"},
+	{"root=deep;TMPDIR=@SHM@", "deep working directory, TMPDIR on /dev/shm"},
+	{"-HOME", "HOME unset"},
+	{"HOME=@MISSING@", "HOME names a missing directory"},
+	{"HOME=@RODIR@;XDG_CONFIG_HOME=@MISSING@;XDG_CACHE_HOME=@FILE@", "HOME read-only, XDG directories unusable"},
+	{"-HOME;-USER;-LOGNAME;-PATH;-TMPDIR;-LANG;-LC_ALL;-TERM;-PWD", "nearly empty environment"},
+	{"PWD=/nonexistent", "PWD lies"},
+	{"LANG=C;LC_ALL=C", "C locale"},
+	{"LANG=de_DE.UTF-8;LC_ALL=de_DE.UTF-8;LC_NUMERIC=de_DE.UTF-8", "a locale with a decimal comma"},
+	{"LC_ALL=tr_TR.UTF-8;LANG=tr_TR.UTF-8", "Turkish locale (dotless i)"},
+	{"LC_ALL=POSIX;LC_COLLATE=C;LANGUAGE=fr", "POSIX locale, LANGUAGE=fr"},
+	{"TZ=Pacific/Kiritimati", "another time zone"},
+	{"GOMAXPROCS=1;GOGC=1", "one processor, eager collector"},
+	{"GOMAXPROCS=64;GOGC=off", "many processors, no collector"},
+	{"GODEBUG=madvdontneed=1,gctrace=0;GOTRACEBACK=all", "Go runtime settings"},
+	{"NO_COLOR=1;TERM=dumb;COLUMNS=20;LINES=3", "terminal settings"},
+	{"TERM=xterm-256color;CLICOLOR_FORCE=1;FORCE_COLOR=3", "colour forced"},
+	{"JQAWK_DEBUG=1;DEBUG=1;VERBOSE=1;JQAWK_OUTPUT=other.json;JQAWK_ROOT=$.zzz", "variables a tool might read"},
+	{"umask=077", "umask 077"},
+	{"umask=0", "umask 0"},
+	{"umask=277;TMPDIR=@SHM@", "umask 277, TMPDIR on /dev/shm"},
+	{"umask=022;root=shm;-HOME;LC_ALL=C", "umask 022, /dev/shm, no HOME, C locale"},
+}
+
+func c10Environments(r *rand.Rand, tier string, emit func(Case)) {
+	if os.Getenv("JQAWK_BIN") == "" {
+		emit(Case{ID: "no-binary", Req: "cli - - - -", ImplOnly: true, Oracle: c14Basic,
+			Meta: map[string]string{"problem": "env JQAWK_BIN is not set; this family runs the real binary"}})
+		return
+	}
+	n := tierN(tier, 36, 220)
+	perScenario := tierN(tier, 9, 18)
+	progs := []string{`$ is object { $.n = $.n + 1; print "n is now", $.n }`, `{ }`, ``, `$ is object { $.seen = true }`, `$ is object { $.x++ }`, `$ is object { $.added = "some more text" }`,
+		`{ print "seen", $file }`, `BEGIN { print "start" } END { print "done" }`, `{ $ = [$, $] }`, `BEGINFILE { $ = {"replaced": $file} }`,
+		`$.name is string { print $.name.upper(), $.name.lower() }`, `{ printf("%9f|%v|%-4s|\n", 3.14159, 42, "é") }`, `{ print 1 / 3, 100000 * 100000 * 100000 * 100000 * 100000, 0.1 + 0.2 }`}
+	failing := []string{`{ x = 1 / 0 }`, `{ print `, `{ $.self = $ }`, `{ print "before"; f() }`}
+	for i := 0; i < n; i++ {
+		g := fmt.Sprintf("env-%d", i)
+		prog := pick(r, progs)
+		if i == 0 {
+			prog = progs[0]
+		}
+		fails := i > 0 && i%5 != 2 && chance(r, 0.12)
+		if fails {
+			prog = pick(r, failing)
+		}
+		doc := c14ODoc(r)
+		if i == 0 || chance(r, 0.25) {
+			doc = pick(r, []string{`{"n": 41, "name": "x"}`, `[{"n": 1, "name": "Beth"}, {"n": 2, "name": "İstanbul ı"}]`, `{"name": "é"}` + "\n" + `{"name": "z", "n": 2.5}`})
+		}
+		// every fifth scenario is about the locale: case mapping, number formatting, sorting
+		locale := i%5 == 2
+		if locale {
+			prog = pick(r, []string{`$.name is string { print $.name.upper(), $.name.lower(), $.n / 4 }`, `{ printf("%9f|%v|%s|%f\n", $.n / 8, 42, $.name, 1234567.5) } END { print [10, 9, 2.5, 1000000].sort(), ["b", "a", "B", "i", "I"].sort() }`,
+				`$ is object { $.up = $.name.upper(); $.lo = $.name.lower(); $.q = $.n / 3; $.big = 1234567.25 * $.n }`})
+			doc = pick(r, []string{`[{"n": 1, "name": "Beth i"}, {"n": 2.5, "name": "Iris Ii"}]`, `{"name": "quiet title", "n": 10}` + "\n" + `{"name": "I", "n": 2.5}`})
+		}
+		badInput := i > 0 && !locale && chance(r, 0.06)
+		if badInput {
+			doc = pick(r, c14BadStreams)
+		}
+		// where the JSON goes
+		omode := pick(r, []string{"file", "file", "file", "sub", "subsub", "existing", "input", "odd-name", "stdout", "none"})
+		if i == 0 {
+			omode = "file"
+		}
+		target, ofile := "", ""
+		disk := []CliFile{{Name: "in.json", Data: []byte(doc)}}
+		switch omode {
+		case "file":
+			target = "out.json"
+		case "sub":
+			target = "sub/o.json"
+			disk = append(disk, CliFile{Name: "sub", Dir: true})
+		case "subsub":
+			target = "a b/c/out put.json"
+			disk = append(disk, CliFile{Name: "a b/c", Dir: true})
+		case "existing":
+			target = "result"
+			disk = append(disk, CliFile{Name: "result", Data: []byte(pick(r, []string{"", "old", `{"old": [1, 2, 3], "long": "` + strings.Repeat("x", 3000) + `"}`}))})
+		case "input":
+			target = "in.json"
+		case "odd-name":
+			target = pick(r, []string{"o,1.json", "é.json", ".hidden", "out.json.tmp", "jqawk-123.json", "sub dir/o"})
+			if target == "sub dir/o" {
+				disk = append(disk, CliFile{Name: "sub dir", Dir: true})
+			}
+		case "stdout":
+			target = "-"
+		}
+		var argv []string
+		if target != "" {
+			argv = c14Flag(r, "o", target)
+			if target != "-" {
+				ofile = target
+			}
+		}
+		var sels []string
+		if chance(r, 0.2) {
+			sel := pick(r, []string{"$", "$.name", "$[0]", "$.list"})
+			sels = []string{sel}
+			argv = append(argv, c14Flag(r, "r", sel)...)
+		}
+		useStdin := chance(r, 0.15) && omode != "input"
+		var plain string
+		if useStdin {
+			argv = append(argv, prog)
+			plain = CliReq(argv, []byte(doc), true, disk[1:], ofile)
+		} else {
+			argv = append(argv, prog, "in.json")
+			plain = CliReq(argv, nil, false, disk, ofile)
+		}
+		fname := "in.json"
+		if useStdin {
+			fname = "<stdin>"
+		}
+		ref := c14InProc(prog, sels, []File{{Name: fname, Data: []byte(doc)}}, true)
+		libOK := ref["class"] == "ok" && ref["json"] != "ERR"
+		wantJS := string(ref.Bytes("json"))
+		oracle := func(i Resp) string {
+			if w := c14Basic(i); w != "" {
+				return w
+			}
+			if i["exit"] == "" {
+				return "the binary gave no exit status: " + i.String()
+			}
+			if libOK && (target != "" || ref["class"] == "ok") {
+				if i["exit"] != "0" {
+					return "the library run succeeds, the binary exits with " + i["exit"] + ": " + short(string(i.Bytes("stderr")))
+				}
+				if ofile != "" && string(i.Bytes("ofile")) != wantJS {
+					return fmt.Sprintf("the -o file holds %q (exists=%s); the run's JSON is %q (GetRootJson)", short(string(i.Bytes("ofile"))), i["ofexists"], short(wantJS))
+				}
+			}
+			if ref["class"] != "ok" && i["exit"] == "0" {
+				return "the library run fails (" + ref["class"] + "), the binary exits with 0"
+			}
+			return ""
+		}
+		meta := func(what, spec string) map[string]string {
+			return metaProg(prog, "arguments", strings.Join(argv, " ␣ "), "input", short(doc), "-o", omode, "environment", what, "environment spec", spec, "row", "-o "+omode)
+		}
+		nt := func(i Resp) bool { return i["exit"] != "" && (i["ofexists"] == "1" || i["out"] != "-") }
+		gf := []string{"exit", "out", "stderr", "ofile", "ofexists"}
+		emit(Case{ID: g + "/plain", Req: plain, Fields: c14CliFields, Group: g, GroupFields: gf, Meta: meta("the harness's own environment (reference of the group)", ""), Oracle: oracle, NonTrivial: nt})
+		// the environments: the TMPDIR and file-system ones always (a sample), the others at random
+		idx := r.Perm(len(c10Envs))
+		if locale {
+			var first []int
+			for k, e := range c10Envs {
+				if strings.Contains(e.spec, "LC_ALL") || strings.Contains(e.spec, "LANG") {
+					first = append(first, k)
+				}
+			}
+			idx = append(first, idx...)
+		}
+		if i < len(c10Envs) {
+			// every environment is used with the first scenarios' shapes at least once per run
+			idx = append([]int{i}, idx...)
+		}
+		used := 0
+		seen := map[int]bool{}
+		for _, k := range idx {
+			if used >= perScenario {
+				break
+			}
+			if seen[k] {
+				continue
+			}
+			seen[k] = true
+			used++
+			e := c10Envs[k]
+			emit(Case{ID: fmt.Sprintf("%s/e%d", g, k), Req: CliEnvReq(plain, e.spec), ModelReq: plain, Fields: c14CliFields, Group: g, GroupFields: gf,
+				Meta: meta(e.what, e.spec), Oracle: oracle, NonTrivial: nt})
+		}
+	}
+}
+
+func init() {
+	register(Family{
+		Name: "environments", Prop: "C10",
+		Rule: "the REAL BINARY on the same (program, selectors, input, -o FILE) under different process environments (cli flag e=): TMPDIR unset / missing / a regular file / a read-only directory / an empty directory on another file system (/dev/shm) / the working directory / empty / relative; HOME, USER, PATH, PWD unset or lying; LANG, LC_ALL, LC_NUMERIC, LANGUAGE, TZ, GOMAXPROCS, GOGC, GODEBUG, NO_COLOR, TERM, made-up JQAWK_* variables; umask 077 / 0 / 277; the working directory on /dev/shm (another file system than the system temp dir) and deep down a path with blanks, quotes and non-ASCII names. -o targets: in the working directory, one and two directories down, over an existing file, over the input file, odd names, `-`, none; input from a file or stdin; with and without -r; 1 in 8 programs fails, 1 in 16 inputs is not JSON. One Group per scenario: exit, stdout, stderr and the bytes of the -o file equal the plain run's in every environment; all compared with the model (ModelReq: the plain request); oracle: the library run in the generator succeeds => exit 0 and the -o file holds GetRootJson's text",
+		Gen:  c10Environments,
+	})
+}
